@@ -15,7 +15,12 @@ MINT_FILES = ["replay/mint/zz_verif_helpers_test.go", "replay/mint/zz_verif_driv
 # (fn regex, obligation regex, pkg, files, test name, args)
 CLIENT_FILES = ["replay/client/zz_verif_drivers_test.go"]
 
+WALLET_FILES = ["replay/wallet/zz_verif_drivers_test.go"]
+
 DRIVERS = [
+    (r"wallet\.Wallet\)\.swapToSend$", r"callsite:slices\.Sort@sendfee", "wallet", WALLET_FILES, "TestVerifReplay_SendFeeEstimate", {"Amount": 3, "FeePpk": 1000}),
+    (r"wallet\.Wallet\)\.getActiveKeyset$", r"post@past|inv-", "wallet", WALLET_FILES, "TestVerifReplay_FeeChangeRewindsCounter", None),
+    (r"wallet\.Restore$", r"callsite:storage\.WalletDB\.IncrementKeysetCounter|shape:", "wallet", WALLET_FILES, "TestVerifReplay_RestoreCounter", None),
     (r"wallet/client\.PostSwap$", r"callsite:json\.Marshal@nodleq", "wallet/client", CLIENT_FILES, "TestVerifReplay_SwapRequestCarriesDLEQ", None),
     (r"wallet/client\.PostMeltBolt11$", r"callsite:json\.Marshal@nodleq", "wallet/client", CLIENT_FILES, "TestVerifReplay_MeltRequestCarriesDLEQ", None),
     (r"mint\.Mint\)\.Swap$", r"boundary@", "mint", MINT_FILES, "TestVerifReplay_SwapCrashPoint", None),
